@@ -2,7 +2,7 @@
 import os
 from .index import Program
 from .interp import Interp, Stats
-from . import intr_core, intr_coll, intr_serde
+from . import intr_core, intr_coll, intr_serde, intr_misc
 
 _PROGRAM = None
 
@@ -19,6 +19,7 @@ def make_interp(program, stats=None, extra=()):
     intr_core.register(I)
     intr_coll.register(I)
     intr_serde.register(I)
+    intr_misc.register(I)
     for mod in extra:
         mod.register(I)
     return I
